@@ -49,6 +49,12 @@ def cases(ctx):
         if not kw and rng.random() < 0.15:  # empty arrays supply no points
             kw = {str(rng.choice(["thresholds", "fnr", "fpr"])): np.zeros(0)}
         nbp = rng.choice([-1, 1, 2, 3, 10, 11, 100])
+        if i in (7, 400):
+            # a large evaluation set with nothing supplied and nb_points=None: still one point per scored sample (no thinning beyond some size)
+            n_big = int(rng.choice([10001, 10500, 20011, 35000])) if i == 7 else int(rng.integers(10001, 12000))
+            allv_ = rng.normal(0, 1, n_big).round(6)
+            lab_ = rng.random(n_big) < float(rng.uniform(0.2, 0.8))
+            pos, neg, kind, kw, nbp = allv_[lab_] + 0.8, allv_[~lab_], "large", {}, -1
         yield {"pos": pos, "neg": neg, "ep": ep, "en": en, "sc": sc, "ec": ec, "kind": kind, "kw": kw, "nb_points": None if nbp < 0 else int(nbp),
                "x_axis": str(rng.choice(monitors.X_AXES)), "pkg": bool(rng.random() < 0.5),
                "via": str(rng.choice(derive.VIAS)), "_seed": int(rng.integers(1 << 31))}
